@@ -134,6 +134,25 @@ MapExtend(l) == LET r == ExtendFold(Live, E, stamp, l) IN
 MapLoad(ns, l) == LET r == ExtendFold({ns[i] : i \in DOMAIN ns}, {}, stamp, l) IN
                   /\ nodes' = [x \in r[1] |-> x] /\ E' = r[2] /\ stamp' = r[3] /\ ret' = <<"s", "ok">> /\ Same2
 
+\* data::Build for GraphMap: add_edge refuses an existing pair (None) and otherwise inserts; update_edge is add_edge
+MapBuildAddEdge(a, b, w) ==
+    IF Has(a, b) THEN ret' = <<"b", FALSE>> /\ Unch
+    ELSE /\ ret' = <<"b", TRUE>> /\ nodes' = [x \in Live \cup {a, b} |-> x] /\ AddE(a, b, w) /\ Same2
+MapBuildUpdateEdge(a, b, w) ==
+    /\ nodes' = [x \in Live \cup {a, b} |-> x] /\ ret' = <<"s", "ok">> /\ Same2
+    /\ IF Has(a, b) THEN LET f == TheEdge(a, b) IN E' = (E \ {f}) \cup {[f EXCEPT !.w = w]} /\ UNCHANGED stamp
+       ELSE AddE(a, b, w)
+\* data::FromElements for GraphMap (distinct node weights): nodes, then Build::add_edge per edge element - the FIRST
+\* element of a repeated pair wins
+RECURSIVE ElemFold(_, _, _)
+ElemFold(es, st, l) ==
+    IF l = <<>> THEN <<es, st>>
+    ELSE LET x == Head(l)
+             old == {e \in es : (e.a = x[1] /\ e.b = x[2]) \/ (~dir /\ e.a = x[2] /\ e.b = x[1])} IN
+         ElemFold(IF old = {} THEN es \cup {[a |-> x[1], b |-> x[2], w |-> x[3], k |-> st]} ELSE es, st + 1, Tail(l))
+MapFromElements(ns, l) == LET r == ElemFold({}, stamp, l) IN
+    /\ nodes' = [x \in {ns[i] : i \in DOMAIN ns} |-> x] /\ E' = r[1] /\ stamp' = r[2] /\ ret' = <<"s", "ok">> /\ Same2
+
 --------------------------------------------------------------------------
 \* ---- MatrixGraph
 \* add_node returns some id that is not live (which one is not specified: the logged id is the parameter)
